@@ -68,7 +68,7 @@ TOK = re.compile(r"""
   | (?P<str>"(?:[^"\\]|\\.)*")
   | (?P<life>'[a-z_]\w*(?!'))
   | (?P<id>[A-Za-z_]\w*)
-  | (?P<op>::|->|=>|==|!=|&&|\|\||<=|>=|<<|>>|\.\.|[-+*/%^!&|=<>.,;:(){}\[\]?#@$])
+  | (?P<op>::|->|=>|==|!=|&&|\|\||<<=|>>=|<=|>=|\+=|-=|&=|\|=|\^=|\*=|<<|>>|\.\.|[-+*/%^!&|=<>.,;:(){}\[\]?#@$])
 """, re.X | re.S)
 
 
@@ -194,6 +194,9 @@ class P:
                 self.next()
                 self.skip_vis()
                 continue
+            if t in ('const', 'unsafe', 'async') and self.peek(1) == 'fn':
+                self.next()
+                continue
             if t == 'struct':
                 self.next()
                 name = self.next()
@@ -228,6 +231,10 @@ class P:
             if t == 'enum':
                 self.next()
                 name = self.next()
+                if self.peek() == '<':
+                    self.skip_generics()
+                if self.peek() == 'where':
+                    self.skip_type(['{'])
                 self.eat('{')
                 vs = []
                 while not self.opt('}'):
@@ -305,6 +312,12 @@ class P:
                 else:
                     self.opt(';')
                 continue
+            if self.kind() == 'id' and self.peek(1) == '!' and self.peek(2) == '{':
+                # item-level macro invocation (bitflags! { .. }, cfg_register! { .. })
+                self.next()
+                self.next()
+                self.skip_braced()
+                continue
             # anything else (doc attributes are comments already): skip a token
             self.next()
 
@@ -321,6 +334,9 @@ class P:
                 pat = self.pattern()
                 if self.opt(':'):
                     self.skip_type(['=', ';'])
+                if self.opt(';'):
+                    stmts.append(('let', pat, None))
+                    continue
                 self.eat('=')
                 e = self.expr()
                 self.eat(';')
@@ -332,11 +348,24 @@ class P:
                 self.opt(';')
                 stmts.append(('return', e))
                 continue
+            if self.peek() == 'while':
+                self.next()
+                self.no_struct += 1
+                c = self.expr()
+                self.no_struct -= 1
+                stmts.append(('while', c, self.block()))
+                continue
             e = self.expr()
             if self.opt('='):
                 r = self.expr()
                 self.opt(';')
                 stmts.append(('assign', e, r))
+                continue
+            if self.peek() in ('+=', '-=', '&=', '|=', '^=', '*=', '<<=', '>>='):
+                op = self.next()[:-1]
+                r = self.expr()
+                self.opt(';')
+                stmts.append(('assign', e, ('bin', op, e, r)))
                 continue
             if self.opt(';'):
                 stmts.append(('expr', e))
@@ -924,6 +953,8 @@ class Interp:
         stmts = blk[1]
         for idx, st in enumerate(stmts):
             k = st[0]
+            if k == 'while' or (k == 'let' and st[2] is None):
+                raise HardUnsupported('loop / deferred initialisation')
             if k == 'let':
                 v = self.eval(st[2], env)
                 if isinstance(v, Res) and v.kind == 'bus':
